@@ -471,8 +471,11 @@ class PreparedStatementPlanner():
             # prepare select
             return self.prepare_select(query)
         if isinstance(query, ast.Union):
-            # get column definition only from select
-            return self.prepare_select(query.left)
+            # get column definition only from select (the first one of a chain a UNION b UNION c)
+            first = query.left
+            while isinstance(first, ast.Union):
+                first = first.left
+            return self.prepare_select(first)
         if isinstance(query, ast.Insert):
             # return self.prepare_insert(query)
             # TODO do we need columns?
